@@ -139,7 +139,19 @@ def run(ctx):
         ctx.cov["behaviours_exported"][name] = len(cs)
         if len(cs) > cap:
             rnd.shuffle(cs)
-            cs = cs[:cap]
+
+            def rare(c):     # stratum kept first: a device with probe points transformed about an origin other than (0, 0)
+                probes = False
+                for st in c:
+                    o = st["o"]
+                    probes = probes or (o["op"] == "mkdev" and o.get("pm") == "inside")
+                    if probes and o["op"] in ("devrotate", "devscale") and tuple(o["org"]) != (0, 0):
+                        return True
+                return False
+
+            first = [c for c in cs if rare(c)][:cap // 4]
+            ids = {id(c) for c in first}
+            cs = first + [c for c in cs if id(c) not in ids][:cap - len(first)]
             ctx.cov["exhaustive_replay"] = False
         chains += cs
         origin += [name] * len(cs)
@@ -152,7 +164,7 @@ def run(ctx):
                           args=dict(chains=[[st["o"] for st in c] for c in chains[k:k + per]], variants=variants[k:k + per], H=3,
                                     first=k, out=str(tdir / f"chains_{k}.json"))))
             for k in range(0, len(chains), per)]
-    nrel = 150 if ctx.quick else 3000
+    nrel = 120 if ctx.quick else 2000
     seeds = [ctx.seed * 100003 + k for k in range(nrel)]
     jobs += [("call", dict(module="harness.polyalg", func="relation_traces", args=dict(seeds=seeds[k:k + 50], transforms=3)))
              for k in range(0, nrel, 50)]
@@ -206,6 +218,19 @@ def run(ctx):
     ctx.cov["boxes_built_through_the_angle_argument"] = dict(tilted)
     if not ctx.violations and (tilted["angle 90, not symmetric under the tilt"] < 20 or tilted["angle 270, not symmetric under the tilt"] < 20):
         raise core.MachineryFailure("C18: too few asymmetric boxes built with angle=90 / 270 (vacuous)")
+    shared = 0
+    for n, m in enumerate(meta):
+        if m["share_names"]:
+            seen = False
+            for st, e in zip(chains[n], m["ops"]):
+                o = st["o"]
+                if o["op"] == "mkdev" and o["hs"] and e[3] == "ok":
+                    seen = True
+                elif seen and o["op"] in ("devtranslate", "devrotate", "devscale") and e[3] == "ok":
+                    shared += 1
+    ctx.cov["device_transforms_with_film_and_hole_sharing_a_name"] = shared
+    if not ctx.violations and shared < 20:
+        raise core.MachineryFailure(f"C18: only {shared} device transforms on devices whose film and hole share a name (vacuous)")
     ctx.cov["device_transforms_per_coherence_length"] = dict(xi_ops)
     if not ctx.violations:
         for xi in pa.XIS:
@@ -243,6 +268,16 @@ def run(ctx):
                 raise core.MachineryFailure(f"C18: {kind} never observed with outcome {out}")
     ctx.cov["relation_setops_validated"] = sum(t["nset"] for t in rel_tr)
     ctx.cov["relation_device_probe_transforms"] = sum(t["nprobe"] for t in rel_tr)
+    ctx.cov["relation_devices_per_name_sharing"] = dict(collections.Counter(t["names"] for t in rel_tr))
+    ctx.cov["relation_operand_vertices_checked_to_survive"] = sum(t["nsurv"] for t in rel_tr)
+    if not ctx.violations:
+        for k in ("film/hole", "film/terminal", "hole/terminal"):
+            if ctx.cov["relation_devices_per_name_sharing"].get(k, 0) < 10:
+                raise core.MachineryFailure(f"C18: too few relation devices with names shared {k} (vacuous)")
+        if ctx.cov["relation_operand_vertices_checked_to_survive"] < 500:
+            raise core.MachineryFailure("C18: too few operand vertices checked to survive a set operation (vacuous)")
+        if sum(t["nprim"].get("thin box (aspect >= 40)", 0) for t in rel_tr) < 30:
+            raise core.MachineryFailure("C18: too few thin boxes against the harness' own rectangle (vacuous)")
     ctx.cov["relation_devices_per_coherence_length"] = dict(collections.Counter(str(t["xi"]) for t in rel_tr))
     if not ctx.violations and sum(1 for t in rel_tr if t["xi"] != 1.0) < 30:
         raise core.MachineryFailure("C18: too few relation traces with a device whose coherence length is not 1 (vacuous)")
